@@ -70,6 +70,7 @@ def new_case(w, rng, *, depth=None, roots=("st", "ar", "str", "ur"), tg_kw=None,
     if depth is None:
         depth = rng.choice([1, 2, 2, 3, 3]) if w.tier == "quick" else rng.choice([1, 2, 3, 3, 4])
     tgk = dict(tg_kw or {})
+    tgk.setdefault("ref_defaults", 0.2)
     vgk = dict(vg_kw or {})
     if w.tier == "thorough":
         # deeper bounds: more fields per struct, larger static extents, longer dynamic extents
